@@ -564,8 +564,15 @@ pub fn case_damage(scratch: &Path, meta: usize, id: &str, seed: u64, len: usize,
                                         if final_spec.queues.get(&bt.q).map(|s| s.incarnation) != Some(bt.incarnation) {
                                             continue;
                                         }
+                                        // records of the batch that the FIRST recovery had already lost do not count:
+                                        // the continuation appends at the freed positions, and a new record with the
+                                        // same position and the same (e.g. empty) payload is not the old one
+                                        let after_first: Vec<bool> = match obs.get(&bt.q) {
+                                            Some(q1) => bt.recs.iter().map(|b| q1.recs.contains(b)).collect(),
+                                            None => vec![false; bt.recs.len()],
+                                        };
                                         if let Some(q) = obs2.get(&bt.q) {
-                                            let present: Vec<bool> = bt.recs.iter().map(|b| q.recs.contains(b)).collect();
+                                            let present: Vec<bool> = bt.recs.iter().zip(after_first.iter()).map(|(b, was)| *was && q.recs.contains(b)).collect();
                                             let first_true = present.iter().position(|p| *p).unwrap_or(present.len());
                                             if present[first_true..].iter().any(|p| !*p) {
                                                 r.violate("C12", format!("{}; after a continuation and a second restart: a batch of queue {:?} was recovered with a hole or a missing tail: {:?}", ctx, bt.q, present));
